@@ -932,6 +932,84 @@ def ckeyc(v):
     return ckey(v)
 
 
+# ----------------------------------------------------------------------------------------
+# chains: comparison / containment chains over three operands, as context variables and spelled as literals
+# ----------------------------------------------------------------------------------------
+CHAINS = ["A in B", "A not in B", "A not in B != C", "A in B != C", "A in B == C", "A not in B == C",
+          "C != A not in B", "C == A in B", "A < C in B", "A <= C not in B",
+          "A == C", "A != C", "A < C", "A <= C", "A > C", "A >= C",
+          "A < C < A", "A <= C <= A", "A == C == A", "A != C != A", "A < C != A", "A >= C > A"]
+CH_A = [I(1), I(2), F(1.0), S("a"), S("abc"), B(1), N, L(I(1)), S(""), I(5)]
+CH_B = [L(I(1), I(2)), L(), L(S("a"), F(1.0)), T(I(1), I(2)), M((S("a"), I(1))), M((I(1), S("x")), (S("abc"), N)), S("abc"), L(L(I(1)), N), I(1), N, L(B(1))]
+CH_C = [I(5), I(1), F(1.0), S("a"), B(1), B(0), N, L(I(1), I(2)), S("abc"), M((S("a"), I(1)))]
+
+
+def literal(v):
+    """the template literal of a value, or None when it has none"""
+    t = v[0]
+    if t == 'n': return "none"
+    if t == 'b': return "true" if v[1] else "false"
+    if t == 'i' and 0 <= v[2] < 2**63: return str(v[2])
+    if t == 'f':
+        x = struct.unpack('<d', struct.pack('<Q', v[1]))[0]
+        return repr(x) if x == x and abs(x) != float('inf') and x >= 0 and 1e-4 < abs(x) + 1 < 1e15 else None
+    if t == 's' and v[1] == 0 and all(32 <= c < 127 and c not in (34, 39, 92) for c in v[2]):
+        return '"' + "".join(chr(c) for c in v[2]) + '"'
+    if t in ('l', 't'):
+        parts = [literal(x) for x in v[1]]
+        if any(p is None for p in parts): return None
+        if t == 'l': return "[" + ", ".join(parts) + "]"
+        return "(" + ", ".join(parts) + ("," if len(parts) == 1 else "") + ")" if parts else None
+    if t == 'm':
+        parts = [(literal(k), literal(x)) for k, x in v[1]]
+        if any(a is None or b is None for a, b in parts): return None
+        return "{" + ", ".join(a + ": " + b for a, b in parts) + "}"
+    return None
+
+
+def chain_cases(thorough):
+    out = []
+    def rendered_only(x): return x[0] in ('s', 'i')
+    for a in CH_A:
+        for b in CH_B:
+            for c in CH_C:
+                if b[0] == 's' and not (rendered_only(a) and rendered_only(c)):
+                    continue     # a needle of a string container that is not a string is searched by its rendering (modelled for integers)
+                out.append((a, b, c))
+    return out
+
+
+def chain_case(a, b, c):
+    ls = [literal(a), literal(b), literal(c)]
+    line = [3] + flat(a) + flat(b) + flat(c)
+    if all(l is not None for l in ls):
+        line.append(1)
+        for l in ls:
+            line += [len(l)] + [ord(ch) for ch in l]
+    else:
+        line.append(0)
+    return line, (ls if all(l is not None for l in ls) else None)
+
+
+def check_chain(a, b, c, lits, out):
+    n = len(CHAINS)
+    if len(out) not in (n, 2 * n) or any(not isinstance(x, int) for x in out):
+        return [("no-panic", "a comparison chain crashed or failed: %r" % (out[:4],), None)]
+    bad = []
+    var = out[:n]
+    # chains are conjunctions of their links: the single-link answers determine the two-link ones that reuse them
+    if var[0] < 100 and var[1] < 100 and var[1] != 1 - var[0]:
+        bad.append(("not-in", "`a not in b` is %d while `a in b` is %d" % (var[1], var[0]), None))
+    if lits is not None and len(out) == 2 * n:
+        lit = out[n:]
+        for i in range(n):
+            if lit[i] != var[i]:
+                src = CHAINS[i].replace("A", lits[0]).replace("B", lits[1]).replace("C", lits[2])
+                bad.append(("literal-equals-variable", "`%s` gives %s with literal operands but %s with the same values as variables (`%s`)" % (src, lit[i], var[i], CHAINS[i].lower()), None))
+                break
+    return bad
+
+
 def filter_key_pool():
     """every value the filter laws compare: items, attribute values, case-folded keys, defaults"""
     vals = []
@@ -1131,17 +1209,36 @@ def main():
                     register(law, msg, {"container": c, "needle": v, "shown": {"container": show(c), "needle": show(v)}, "law": law, "observed": msg, "profile": prof,
                                         "target": tgt.name, "implementation [v in c, v not in c, v is in(c), v in (c|list), c[v] is defined]": rc["impl"][rel][ci],
                                         "how": "./check C07 --replay <this file>"}, kcls)
+        # ---------------- mode D: comparison chains, operands as variables and as literals ----------------
+        if chk.replay:
+            chs = [tuple(tuple_deep(x) for x in rp["chain"])] if (rp and "chain" in rp) else []
+        else:
+            chs = chain_cases(chk.thorough)
+        chs = [t for t in chs if not (tgt.order == "insertion" and (hash_dependent(t[1], t[0]) or hash_dependent(t[1], t[2]) or hash_dependent(t[0], t[2])))]
+        built = [chain_case(*t) for t in chs]
+        chcases = [x[0] for x in built]
+        rch = corr_t(chk, tgt, chcases, 6)
+        for rel in (False, True):
+            prof = "release" if rel else "debug"
+            for ci, t in enumerate(chs):
+                for law, msg, kcls in check_chain(t[0], t[1], t[2], built[ci][1], rch["impl"][rel][ci]):
+                    register(law, msg, {"chain": list(t), "shown": {"a": show(t[0]), "b": show(t[1]), "c": show(t[2]), "literals": built[ci][1]}, "law": law, "observed": msg,
+                                        "profile": prof, "target": tgt.name, "templates": CHAINS, "implementation (variables, then literals)": rch["impl"][rel][ci],
+                                        "how": "./check C07 --replay <this file>"}, kcls)
+        if tgt.order == "sorted":
+            hist["chains"] += len(chcases)
+        evaluations += len(chcases) * 2
         if tgt.order == "sorted":
             hist["containment"] += len(ccases)
         evaluations += (len(ccases) + len(epc)) * 2
-        for what, rr, cs in (("pair", r, pcases), ("filter", rf, fcases), ("containment", rc, ccases)):
+        for what, rr, cs in (("pair", r, pcases), ("filter", rf, fcases), ("containment", rc, ccases), ("chain", rch, chcases)):
             mm = [(i, rel) for i in range(len(cs)) for rel in sorted(rr["impl"]) if rr["impl"][rel][i] != rr["model"][i]]
             disagreements += len(mm)
             if mm:
                 i, rel = mm[0]
                 failures.append(("model and implementation disagree (%s, %s target)" % (what, tgt.name),
                                  {"theorem_or_correspondence": "correspondence C07.Runner.%s vs harness c07" % tgt.coq_run, "target": tgt.name, "case": cs[i],
-                                  "describe": fdescribe(cs[i]) if what == "filter" else ([show(pool[k]) for k in keep[i]] if what == "pair" else [show(x) for x in ccs[i]]),
+                                  "describe": fdescribe(cs[i]) if what == "filter" else ([show(pool[k]) for k in keep[i]] if what == "pair" else [show(x) for x in (ccs[i] if what == "containment" else chs[i])]),
                                   "implementation": rr["impl"][rel][i][:80], "model": rr["model"][i][:80], "profile": "release" if rel else "debug"}))
             kernel_cases += rr.get("kernel_checked", 0)
             if not rr.get("kernel_ok", False):
@@ -1164,12 +1261,13 @@ def main():
                        "strings small/heap/safe, bytes, lists, tuples, sized+unsized lazy iterables, maps in both insertion orders, plain objects, nestings), all laws incl. %d triples per target and profile; "
                        "filters (17): exhaustive lists of length <= %d over 6-value pools x all keyword options (first %d cases) + maps over every ordered choice of <= 3 keys + container shapes + seeded long lists (up to 150 items); "
                        "containment: `v in c` / `not in` / the `in` test / `v in (c|list)` / `c[v] is defined` for every needle of a 25-value pool (strings, UTF-8 and other bytes spelling the same text, numbers, bool, none, containers) in lists / tuples / lazy iterables / maps (1, 2 and 14 entries, string and bytes keys) / strings / bytes / scalars, against == on the elements resp. keys; "
+                       "chains: 22 comparison / containment chains (`a not in b != c`, `a < c in b`, `a == c == a` ...) over 10 x 11 x 10 operand triples, with the operands as context variables and - where all three have a literal - spelled as literals (constant-folded at compile time): literal form = variable form = model; "
                        "non-trivial = ordered pair of two different pool values + distinct filter case with a non-empty result (counted once, not per target)"
                        % (n * n, n, ntriples // max(1, 2 * len(targets)), 5 if chk.thorough else 4, exn))
     chk.cov["exhaustive"] = False
     chk.cov["exhaustive_subbox_cases"] = exn
     chk.cov["samples"] = samples
-    chk.cov["distribution"] = dict(collections.Counter({k: v for k, v in hist.items() if k.startswith("filter=") or k == "containment"}) + collections.Counter(dict(kinds.most_common(25))))
+    chk.cov["distribution"] = dict(collections.Counter({k: v for k, v in hist.items() if k.startswith("filter=") or k in ("containment", "chains")}) + collections.Counter(dict(kinds.most_common(25))))
     chk.cov["law_outcomes"] = dict(counts)
     chk.cov["impl_vs_model_disagreements"] = disagreements
     chk.cov["indexmap_pairs_left_out_as_hash_dependent"] = skipped_hash_dependent
